@@ -24,8 +24,8 @@ func clAllocationsConsumed(c *Ctx) {
 	}
 	// Insert4: every rejected return frees the node when dealloc
 	fi := p.Info(ins4)
-	x := ssa.Value(ins4.Params[1])
-	dealloc := ssa.Value(ins4.Params[7])
+	x := strip(ins4.Params[1])
+	dealloc := strip(ins4.Params[7])
 	var free ssa.Instruction
 	for _, in := range fi.Instrs {
 		cc := callOf(in)
@@ -97,11 +97,11 @@ func clStoreOwnership(c *Ctx) {
 	newWith := p.Func("nitro", "", "NewWithConfig")
 	cnt := counter{}
 	for _, w := range p.fieldWrites(fStore) {
-		if isFreshBase(w.base) || w.fn == newWith {
+		if isFreshBase(w.base) || p.sameRoot(w.fn, newWith) {
 			c.Check(true, w.fn, w.in, cnt.in(w.fn, "store field initialised on a fresh instance"), "")
 			continue
 		}
-		if w.fn != fn {
+		if !p.sameRoot(w.fn, fn) {
 			c.Check(false, w.fn, w.in, cnt.in(w.fn, "store field replaced"), "Nitro.store is replaced outside NewWithConfig/LoadFromDisk: the previous structure and everything in it is leaked")
 			continue
 		}
